@@ -83,9 +83,11 @@ VARIABLES xs,      \* history: sequence of K-tuples fed / drawn so far
           ncalls,  \* stop: number of calls made to fn
           pend,    \* stop: value returned by fn, not yet absorbed
           reason,  \* stop: "none" | "converged" | "limit" | "tie"
-          tie      \* stop: the predicate was an exact equality
+          tie,     \* stop: the predicate was an exact equality
+          rst,     \* cov: accumulators with the code's own variables as reduced rationals
+          hist     \* cov: rst after every call (kept when TrackCalls)
 
-vars == <<xs, calls, st, phase, perm, st2, par, idx, ncalls, pend, reason, tie>>
+vars == <<xs, calls, st, phase, perm, st2, par, idx, ncalls, pend, reason, tie, rst, hist>>
 
 Abs(a) == IF a < 0 THEN -a ELSE a
 Min(a, b) == IF a <= b THEN a ELSE b
@@ -163,27 +165,28 @@ InitStats ==
     /\ xs = <<>> /\ calls = <<>> /\ st = ZeroState /\ phase = "feed"
     /\ perm = <<>> /\ st2 = ZeroState
     /\ par = NoPar /\ idx = 0 /\ ncalls = 0 /\ pend = <<>> /\ reason = "none" /\ tie = FALSE
+    /\ rst = <<>> /\ hist = <<>>
 
 Update(x) ==
     /\ phase = "feed" /\ Len(xs) < MaxLen
     /\ xs' = Append(xs, x)
     /\ st' = UpdateAll(st, x)
     /\ calls' = IF TrackCalls THEN Append(calls, 0) ELSE calls
-    /\ UNCHANGED <<phase, perm, st2, par, idx, ncalls, pend, reason, tie>>
+    /\ UNCHANGED <<phase, perm, st2, par, idx, ncalls, pend, reason, tie, rst, hist>>
 
 UpdateChunk(c) ==
     /\ phase = "feed" /\ Len(xs) + Len(c) <= MaxLen
     /\ xs' = xs \o c
     /\ st' = FeedAll(st, c)
     /\ calls' = IF TrackCalls THEN Append(calls, Len(c)) ELSE calls
-    /\ UNCHANGED <<phase, perm, st2, par, idx, ncalls, pend, reason, tie>>
+    /\ UNCHANGED <<phase, perm, st2, par, idx, ncalls, pend, reason, tie, rst, hist>>
 
 Permute(p) ==
     /\ phase = "feed" /\ Len(xs) >= MinLen /\ Len(xs) >= 1
     /\ perm' = p
     /\ st2' = FeedAll(ZeroState, [k \in 1..Len(xs) |-> xs[p[k]]])
     /\ phase' = "done"
-    /\ UNCHANGED <<xs, calls, st, par, idx, ncalls, pend, reason, tie>>
+    /\ UNCHANGED <<xs, calls, st, par, idx, ncalls, pend, reason, tie, rst, hist>>
 
 PermuteSome == \E p \in PermChoices(Len(xs)) : Permute(p)
 
@@ -215,26 +218,27 @@ InitStop ==
     /\ xs = <<>> /\ calls = <<>> /\ st = ZeroState /\ phase = "draw"
     /\ perm = <<>> /\ st2 = ZeroState
     /\ idx = 0 /\ ncalls = 0 /\ pend = <<>> /\ reason = "none" /\ tie = FALSE
+    /\ rst = <<>> /\ hist = <<>>
 
 Draw(x) ==                       \* x = fn(..)
     /\ phase = "draw"
     /\ pend' = x
     /\ ncalls' = ncalls + 1
     /\ phase' = "absorb"
-    /\ UNCHANGED <<xs, calls, st, perm, st2, par, idx, reason, tie>>
+    /\ UNCHANGED <<xs, calls, st, perm, st2, par, idx, reason, tie, rst, hist>>
 
 Absorb ==                        \* rs.update(x)
     /\ phase = "absorb"
     /\ xs' = Append(xs, pend)
     /\ st' = UpdateAll(st, pend)
     /\ phase' = "check"
-    /\ UNCHANGED <<calls, perm, st2, par, idx, ncalls, pend, reason, tie>>
+    /\ UNCHANGED <<calls, perm, st2, par, idx, ncalls, pend, reason, tie, rst, hist>>
 
 SkipCheck ==                     \* "if i > min_samples" is false
     /\ phase = "check" /\ Variant # "nocheck"
     /\ ~(idx > par.mn)
     /\ phase' = "limit"
-    /\ UNCHANGED <<xs, calls, st, perm, st2, par, idx, ncalls, pend, reason, tie>>
+    /\ UNCHANGED <<xs, calls, st, perm, st2, par, idx, ncalls, pend, reason, tie, rst, hist>>
 
 Check ==                         \* rs.converged(rtol, tol_scale * rtol)
     /\ phase = "check" /\ Variant # "nocheck"
@@ -243,30 +247,30 @@ Check ==                         \* rs.converged(rtol, tol_scale * rtol)
        IN  CASE c = "y" -> phase' = "conv" /\ UNCHANGED <<reason, tie>>
              [] c = "n" -> phase' = "limit" /\ UNCHANGED <<reason, tie>>
              [] OTHER   -> phase' = "stopped" /\ reason' = "tie" /\ tie' = TRUE
-    /\ UNCHANGED <<xs, calls, st, perm, st2, par, idx, ncalls, pend>>
+    /\ UNCHANGED <<xs, calls, st, perm, st2, par, idx, ncalls, pend, rst, hist>>
 
 CheckBlind ==                    \* buggy variant: breaks once i > min_samples, predicate ignored
     /\ phase = "check" /\ Variant = "nocheck"
     /\ phase' = IF idx > par.mn THEN "conv" ELSE "limit"
-    /\ UNCHANGED <<xs, calls, st, perm, st2, par, idx, ncalls, pend, reason, tie>>
+    /\ UNCHANGED <<xs, calls, st, perm, st2, par, idx, ncalls, pend, reason, tie, rst, hist>>
 
 StopConverged ==                 \* break
     /\ phase = "conv"
     /\ phase' = "stopped" /\ reason' = "converged"
-    /\ UNCHANGED <<xs, calls, st, perm, st2, par, idx, ncalls, pend, tie>>
+    /\ UNCHANGED <<xs, calls, st, perm, st2, par, idx, ncalls, pend, tie, rst, hist>>
 
 LimitHit == IF Variant = "limit1" THEN idx >= par.mx ELSE idx >= par.mx - 1
 
 StopLimit ==                     \* "if i >= max_samples - 1: break"
     /\ phase = "limit" /\ LimitHit
     /\ phase' = "stopped" /\ reason' = "limit"
-    /\ UNCHANGED <<xs, calls, st, perm, st2, par, idx, ncalls, pend, tie>>
+    /\ UNCHANGED <<xs, calls, st, perm, st2, par, idx, ncalls, pend, tie, rst, hist>>
 
 Loop ==                          \* next i of itertools.count()
     /\ phase = "limit" /\ ~LimitHit
     /\ idx' = idx + 1
     /\ phase' = "draw"
-    /\ UNCHANGED <<xs, calls, st, perm, st2, par, ncalls, pend, reason, tie>>
+    /\ UNCHANGED <<xs, calls, st, perm, st2, par, ncalls, pend, reason, tie, rst, hist>>
 
 NextStop ==
     \/ \E x \in Samples : Draw(x)
@@ -293,7 +297,7 @@ AsCoded ==
     (phase = "stopped" /\ ~tie) => Len(xs) >= Min(par.mn + 2, par.mx)
 
 TypeOK ==
-    /\ phase \in {"feed", "done", "draw", "absorb", "check", "conv", "limit", "stopped"}
+    /\ phase \in {"feed", "done", "draw", "absorb", "check", "conv", "limit", "stopped", "cov"}
     /\ reason \in {"none", "converged", "limit", "tie"}
     /\ Len(xs) <= MaxLen
 
@@ -322,4 +326,122 @@ EmitStop ==
                pre |-> [k \in 1..Len(xs) |->
                           LET w == WholePair(SubSeq(xs, 1, k), 1, 1)
                           IN  [s |-> w.sx, u |-> w.u, conv |-> Conv(w, par)]]])>>)
+
+-----------------------------------------------------------------------------
+(* Machine 3 (spec growth, reported beside C19 and never as a violation):         *)
+(* RunningCovariance / RunningCovarianceMatrix with the code's OWN variables -     *)
+(* count, xmean, ymean, C - as reduced rationals <<num, den>> (den > 0), and the   *)
+(* update written line by line as in the code:                                     *)
+(*     count += 1 ; dx = x - xmean ; dy = y - ymean                                *)
+(*     xmean += dx / count ; ymean += dy / count ; C += dx * (y - ymean)           *)
+(* Actions CovUpdate(x) (RunningCovarianceMatrix.update: every pair i <= j once)   *)
+(* and CovUpdateChunk(c) (update_from_it: pair by pair, the chunk in order).  The  *)
+(* integer-image accumulators st of machine 1 run alongside.  Invariants:          *)
+(*   CovImage  the rational variables are exactly the integer image's sx/n, sy/n,  *)
+(*             u/n (two independently written models agree)                        *)
+(*   CovWhole  covar = C/count = (n*Sxy - Sx*Sy)/n^2 and sample_covar = C/(count-1)*)
+(*             computed from the whole history at once                             *)
+(*   CovPSD    C[i,i] >= 0 and C[i,j]^2 <= C[i,i]*C[j,j]                            *)
+(*   CovTrace  one snapshot per call                                               *)
+(* hist holds the accumulators after every call; EmitCov prints the history, how   *)
+(* it was cut into calls and every snapshot for the step-by-step replay.           *)
+
+RECURSIVE GCD(_, _)
+GCD(a, b) == IF b = 0 THEN a ELSE GCD(b, a % b)
+Norm(n, d) == LET sg == IF d < 0 THEN -1 ELSE 1
+                  g  == GCD(Abs(n), Abs(d))
+              IN  <<(sg * n) \div g, (sg * d) \div g>>
+RInt(k) == <<k, 1>>
+RAdd(a, b) == Norm(a[1] * b[2] + b[1] * a[2], a[2] * b[2])
+RSub(a, b) == Norm(a[1] * b[2] - b[1] * a[2], a[2] * b[2])
+RMul(a, b) == Norm(a[1] * b[1], a[2] * b[2])
+RDivInt(a, k) == Norm(a[1], a[2] * k)
+RLe(a, b) == a[1] * b[2] <= b[1] * a[2]
+
+CovZero == [n |-> 0, xm |-> RInt(0), ym |-> RInt(0), c |-> RInt(0)]
+CovZeroState == [pr \in Pairs |-> CovZero]
+
+(* RunningCovariance.update(x, y), line by line *)
+CovStep(acc, x, y) ==
+    LET cnt == acc.n + 1
+        dx  == RSub(RInt(x), acc.xm)
+        dy  == RSub(RInt(y), acc.ym)
+        xm2 == RAdd(acc.xm, RDivInt(dx, cnt))
+        ym2 == RAdd(acc.ym, RDivInt(dy, cnt))
+        c2  == IF Variant = "oldmean"
+               THEN RAdd(acc.c, RMul(dx, dy))                       \* buggy: dy before the mean moved
+               ELSE RAdd(acc.c, RMul(dx, RSub(RInt(y), ym2)))
+    IN  [n |-> cnt, xm |-> xm2, ym |-> ym2, c |-> c2]
+
+CovFeedPair(acc, s, i, j) ==
+    LET f[k \in 0..Len(s)] == IF k = 0 THEN acc ELSE CovStep(f[k - 1], s[k][i], s[k][j])
+    IN  f[Len(s)]
+CovUpdateAll(state, x) == [pr \in Pairs |-> CovStep(state[pr], x[pr[1]], x[pr[2]])]
+CovFeedAll(state, s) == [pr \in Pairs |-> CovFeedPair(state[pr], s, pr[1], pr[2])]
+
+InitCov ==
+    /\ xs = <<>> /\ calls = <<>> /\ st = ZeroState /\ phase = "cov"
+    /\ perm = <<>> /\ st2 = ZeroState
+    /\ par = NoPar /\ idx = 0 /\ ncalls = 0 /\ pend = <<>> /\ reason = "none" /\ tie = FALSE
+    /\ rst = CovZeroState /\ hist = <<>>
+
+CovUpdate(x) ==
+    /\ phase = "cov" /\ Len(xs) < MaxLen
+    /\ xs' = Append(xs, x)
+    /\ st' = UpdateAll(st, x)
+    /\ \E new \in {CovUpdateAll(rst, x)} :
+          /\ rst' = new
+          /\ hist' = IF TrackCalls THEN Append(hist, new) ELSE hist
+    /\ calls' = IF TrackCalls THEN Append(calls, 0) ELSE calls
+    /\ UNCHANGED <<phase, perm, st2, par, idx, ncalls, pend, reason, tie>>
+
+CovUpdateChunk(c) ==
+    /\ phase = "cov" /\ Len(xs) + Len(c) <= MaxLen
+    /\ xs' = xs \o c
+    /\ st' = FeedAll(st, c)
+    /\ \E new \in {CovFeedAll(rst, c)} :
+          /\ rst' = new
+          /\ hist' = IF TrackCalls THEN Append(hist, new) ELSE hist
+    /\ calls' = IF TrackCalls THEN Append(calls, Len(c)) ELSE calls
+    /\ UNCHANGED <<phase, perm, st2, par, idx, ncalls, pend, reason, tie>>
+
+NextCov ==
+    \/ \E x \in Samples : CovUpdate(x)
+    \/ \E c \in Chunks : CovUpdateChunk(c)
+
+SpecCov == InitCov /\ [][NextCov]_vars
+
+CovImage ==
+    \A pr \in Pairs :
+        LET a == rst[pr]
+            b == st[pr]
+        IN  /\ a.n = b.n /\ b.ok
+            /\ b.n > 0 => /\ a.xm = Norm(b.sx, b.n)
+                          /\ a.ym = Norm(b.sy, b.n)
+                          /\ a.c = Norm(b.u, b.n)
+CovWhole ==
+    \A pr \in Pairs :
+        LET n == Len(xs)
+            w == WholePair(xs, pr[1], pr[2])
+        IN  /\ rst[pr].n = n
+            /\ n >= 1 => RDivInt(rst[pr].c, n) = Norm(w.u, n * n)
+            /\ n >= 2 => RDivInt(rst[pr].c, n - 1) = Norm(w.u, n * (n - 1))
+CovPSD ==
+    /\ \A i \in 1..K : rst[<<i, i>>].c[1] >= 0
+    /\ \A pr \in Pairs :
+          RLe(RMul(rst[pr].c, rst[pr].c), RMul(rst[<<pr[1], pr[1]>>].c, rst[<<pr[2], pr[2]>>].c))
+CovTrace == TrackCalls => Len(hist) = Len(calls)
+
+PairOf(i, j) == IF i <= j THEN <<i, j>> ELSE <<j, i>>
+
+EmitCov ==
+    (phase = "cov" /\ Len(xs) = MaxLen) =>
+        PrintT(<<"CASE", ToJson(
+              [kind |-> "cov", k |-> K, n |-> Len(xs), xs |-> xs, calls |-> calls,
+               trace |-> [t \in 1..Len(hist) |->
+                            [i \in 1..K |-> [j \in 1..K |->
+                                LET a == hist[t][PairOf(i, j)]
+                                IN  [n |-> a.n, xm |-> a.xm, ym |-> a.ym, c |-> a.c,
+                                     covar |-> RDivInt(a.c, a.n),
+                                     scov  |-> IF a.n >= 2 THEN RDivInt(a.c, a.n - 1) ELSE <<0, 0>>]]]]])>>)
 =============================================================================
